@@ -110,6 +110,7 @@ def main_parallel(ids, jobs, claimed, all_props, rpath, results):
                         json.dump(results, open(rpath, "w"), indent=1, sort_keys=True)
         finally:
             sh(["git", "-C", REPO, "worktree", "remove", "--force", wt])
+            sh(["rm", "-rf", "/tmp/verif_out_" + os.path.basename(wt)])
 
     ts = [threading.Thread(target=worker, args=(n,)) for n in range(jobs)]
     [t.start() for t in ts]
@@ -125,6 +126,7 @@ def main_parallel(ids, jobs, claimed, all_props, rpath, results):
                 json.dump(results, open(rpath, "w"), indent=1, sort_keys=True)
         finally:
             sh(["git", "-C", REPO, "worktree", "remove", "--force", wt])
+            sh(["rm", "-rf", "/tmp/verif_out_" + os.path.basename(wt)])
         # leave the shared development built from /repo again
         sh(["python3", os.path.join(HERE, "setup.py")], cwd=VERIF)
 
